@@ -628,8 +628,9 @@ class PseudoNetCDFFile(PseudoNetCDFSelfReg, object):
         # right = dimevals[-1] + 1
         if method == 'bounds':
             fidx = np.interp(val, dimevals, idx, left=left, right=right)
-            if right is None or right == dimevals[-1]:
-                fidx = np.minimum(fidx, dimvals.size - 1)
+            # the outer edge belongs to the last cell (nan is preserved)
+            fidx = np.where(
+                fidx == dimvals.size, dimvals.size - 1, fidx)
         else:
             fidx = np.interp(val, dimvals, idx, left=left, right=right)
 
